@@ -302,10 +302,24 @@ kernel-checked witness (`…_counterexample`).
   In particular `CheckOp.checkOperation` tests "the schema definition has a parsed position" where the real code (since
   4dcb71b) tests "parsed position OR some root type is set"; the two coincide on parsed documents, and `Bridge.ofIR`
   marks the schema definition of a schema VALUE as parsed exactly when root types are declared (`Bridge.sees_ofIR`).
-* Whole-file statements of the schema declaration file: the order of declarations, the `__nitrogql_schema` metadata
-  object (object-key order differs: document order on the SDL route, query/mutation/subscription on the JSON route), the
-  field-level JSDoc (`fieldDocs`: `@deprecated` tags are lost on the JSON route — exempt), and the resolvers file
-  (no Lean model of `ResolverTypePrinter` here).
+* (moved to theorems — `Props/C15Resolvers.lean`) the resolvers file and the whole-file statements of the schema
+  declaration file. Resolvers file (C10's model `ResolverDecls.resolversFile`): per field the same
+  `__Resolver<Parent, Args, Context, Result>`, per definition the same alias and `Resolvers<Context>` entry — EQUAL, incl.
+  the member order of `__resolveType` unions (`C15_resolvers_field_eq`, `_definition_eq`); both files in closed form over
+  the same pieces (`C15_resolvers_routes_eq`: the JSON route's file = the SDL route's + a fixed `__*` block + the
+  built-in scalar aliases split into referenced / unreferenced), `_routes_perm`, `_routes_agree` (with the reader),
+  witnesses for the extras, the order and the lost metadata. Schema declaration file: declaration order of both files in
+  closed form (`C15_schemaFile_routes_eq`, same blocks of `M` in the same order; they differ by the position of the
+  built-in scalars and the inserted `__*` blocks — `C15_resolvers_definitions_order`), the `__nitrogql_schema` object
+  (`C15_schemaMetadata_routes`: same keys and types; written order on the SDL route, query/mutation/subscription on the
+  JSON route; needs "each operation kind once", which the checker does not enforce:
+  `C15_schemaMetadata_duplicate_root_counterexample`), every JSDoc comment in text order (`C15_schemaDocs_routes_eq`:
+  the JSON route's are the SDL route's without `@deprecated`; `C15_schemaDocs_deprecation_witness`).
+  Still carried by K/O only: that `ResolverDecls` / `SchemaDecls` are the real printers (K of C10 on SDL inputs, the
+  two-route O stream here), argument-description JSDoc inside the resolvers file (the model is the print→parse normal
+  form, comments dropped). The closed forms take the SDL route's document as `M ++ builtins`; the pipeline's regrouping of
+  it by `resolve_schema_extensions` is a permutation, and for EVERY permutation the two files are equivalent up to order
+  (`C15_sdl_route_any_order`, via `C17_resolvers_perm` / `C17_decls_perm`) — which permutation it is, is C11's model.
 * Diagnostics of documents outside the exemptions (`docOk`) and of schemas with unresolved references
   (`TypeSystemError` positions point into the schema source on the SDL route only — witness
   `C15_checkOp_unresolved_reference_counterexample`).
